@@ -59,6 +59,9 @@ func (r *Run) send(req *simnet.Request, faults []Fault, defFrag string) *Resp {
 		case "abort":
 			req.AbortAfter = f.At
 			r.stats.Faults["body-abort-reset"]++
+		case "hang":
+			req.AbortAfter, req.Hang = f.At, true
+			r.stats.Faults["client-stops-sending"]++
 		case "aborteof":
 			req.AbortAfter, req.AbortEOF = f.At, true
 			r.stats.Faults["body-abort-eof"]++
